@@ -111,7 +111,7 @@ def eval_file(lines, given=None, given_norestrict=None, route="list", final=True
     return {"req": mreq, "res": res, "failures": fails, "nontrivial": bool(res["Silent"].get("errors"))}
 
 
-def hdr_via(lines, mode, route, after=None):
+def hdr_via(lines, mode, route, after=None, before=0):
     """MafHeader parsed through `route` ("from_lines" | "line_reader": MafHeader.from_line_reader over a LineReader on a
     text handle holding the lines and, when `after` is not None, a following non-header line): the answer shape of hdr.lines."""
     import io
@@ -120,8 +120,11 @@ def hdr_via(lines, mode, route, after=None):
     with impl.LogCapture() as lc:
         try:
             if route == "line_reader":
-                text = "".join(l + "\n" for l in lines) + ("" if after is None else after + "\n")
-                h = MafHeader.from_line_reader(LineReader(io.StringIO(text)), validation_stringency=impl.MODES[mode])
+                text = "".join("preamble %d\n" % k for k in range(before)) + "".join(l + "\n" for l in lines) + ("" if after is None else after + "\n")
+                lr = LineReader(io.StringIO(text))
+                for _k in range(before):          # the caller has already read some lines from the reader it hands over
+                    lr.read_line()
+                h = MafHeader.from_line_reader(lr, validation_stringency=impl.MODES[mode])
             else:
                 h = MafHeader.from_lines(list(lines), validation_stringency=impl.MODES[mode])
         except Exception as e:  # noqa
@@ -134,11 +137,11 @@ def hdr_via(lines, mode, route, after=None):
     return {"header": impl.header_json(h), "logs": lc.parsed(), "scheme": sch}
 
 
-def eval_header_via(lines, route, after=None):
+def eval_header_via(lines, route, after=None, before=0):
     """Header parsing through MafHeader.from_line_reader (route "line_reader") in the three modes."""
-    res = {m: hdr_via(lines, m, route, after) for m in ("Strict", "Lenient", "Silent")}
+    res = {m: hdr_via(lines, m, route, after, before) for m in ("Strict", "Lenient", "Silent")}
     fails = []
-    check_entry(fails, "header parsing (%s)" % route, {"entry": "header", "lines": lines, "route": route, "after": after}, res,
+    check_entry(fails, "header parsing (%s)" % route, {"entry": "header", "lines": lines, "route": route, "after": after, "before": before}, res,
                 lambda r: r["header"]["errors"] if "header" in r else None,
                 lambda r: (r.get("header") or {}).get("records"))
     # the model is asked about the header lines the line reader hands over: all of them (each starts with '#')
@@ -356,7 +359,7 @@ def entry_point_routes(ctx, out):
     rng = ctx.rng("c03-header-routes")
     for _ in range(ctx.scale(120, 1200)):
         lines = filecases.header_lines(rng)
-        e = eval_header_via(lines, "line_reader", rng.choice([None, "Hugo_Symbol\tChromosome", "", "x"]))
+        e = eval_header_via(lines, "line_reader", rng.choice([None, "Hugo_Symbol\tChromosome", "", "x"]), before=rng.choice([0, 0, 1, 3]))
         out.evaluations += 3
         out.failures += e["failures"]
         out.distribution["header-route:line_reader"] += 1
@@ -429,7 +432,7 @@ def replay_case(ctx, failure):
     if entry == "header" and "lines" in f and f.get("route", "from_lines") != "from_lines":
         if f["route"] != "line_reader":
             return None
-        e = eval_header_via(f["lines"], f["route"], f.get("after"))
+        e = eval_header_via(f["lines"], f["route"], f.get("after"), f.get("before", 0))
         answers = [e["res"]]
         what = "MafHeader.from_line_reader(LineReader(text handle)) over %s%s" % (
             _short(f["lines"], 200), "" if f.get("after") is None else " followed by the line %r" % f["after"])
